@@ -229,6 +229,38 @@ let handle fields impl : string option * string list =
         [Printf.sprintf "accepted-key-in-flight a version-1 OFFER accepted a key that a version-%s transfer from another peer is still bringing in" va]
       else [] in
     (Some m, mons)
+  | ["shared"; ownR; keys; flagsA; flagsB; contents] ->
+    let keys = Util.items_of_string keys and contents = Util.items_of_string contents in
+    let verR = negotiate (vl ownR) (vl "0001") and verO = negotiate (vl "0001") (vl ownR) in
+    let v = match verR with Ok v -> int_n v | _ -> 99 in
+    (* every request is processed as a function of ITS OWN (keys, contents): the model runs the two peers independently *)
+    let one flags =
+      let nv = nodeview keys flags true in
+      match handle_offer verR nv true (n_ 1) (bl keys) with
+      | Ok r ->
+        (match process_offer verO (fun _ -> None) r.or_reply (ReqTransient (List.combine (bl keys) (bl contents))), r.or_listen with
+         | Ok (_, Some (_, payload)), Some (_, akeys) ->
+           (match handle_offered_contents akeys payload true with
+            | Ok (Some (ks, cs)) -> Util.string_of_items (ubl ks) ^ "/" ^ Util.string_of_items (ubl cs)
+            | _ -> "none")
+         | _ -> "none")
+      | _ -> "none" in
+    let m = Printf.sprintf "ok enqA=%s enqB=%s list=%s" (one flagsA) (one flagsB) (Util.string_of_items keys) in
+    let spec flags =
+      let acc = List.map (fun k -> let f = flag_of keys flags k in f land 1 <> 0 && f land 2 = 0 && (v = 0 || f land 4 = 0)) keys in
+      let rec sel fl l = match fl, l with f :: fr, x :: r -> if f then x :: sel fr r else sel fr r | _ -> [] in
+      if List.exists (fun x -> x) acc then Util.string_of_items (sel acc keys) ^ "/" ^ Util.string_of_items (sel acc contents) else "none" in
+    let mons =
+      if not (starts impl "ok") then ["shared-case-failed " ^ impl]
+      else
+        (if field impl "list" <> Util.string_of_items keys then
+           ["shared-offer-list-changed-by-another-peer the content list shared by the requests of one gossip batch reads " ^ field impl "list"] else []) @
+        (List.concat (List.map (fun (nm, fl) ->
+             let e = field impl nm in
+             if e <> "none" && e <> spec fl then [Printf.sprintf "content-paired-with-wrong-key %s=%s spec=%s" nm e (spec fl)]
+             else if e = "none" && spec fl <> "none" then [Printf.sprintf "accepted-content-not-delivered %s spec=%s" nm (spec fl)]
+             else []) [("enqA", flagsA); ("enqB", flagsB)])) in
+    (Some m, mons)
   | ["inflightrl"; va; k] ->
     let kk = b (Util.bytes_of_hex k) in
     let first = if va = "0" then EvOfferV0 [kk] else EvOffer [kk] in
